@@ -166,13 +166,12 @@ var blockedStates = map[string]bool{"chan receive": true, "chan send": true, "se
 	"sync.Cond.Wait": true, "sync.WaitGroup.Wait": true, "IO wait": true, "chan receive (nil chan)": true, "select (no cases)": true}
 
 // parkSignature summarises the actor and library goroutines of a dump;
-// runnable reports whether any of them can still make progress on its own.
+// runnable reports whether any goroutine of the process (not only those) can
+// still make progress on its own: a library goroutine waiting for a runnable
+// net/http goroutine on a loaded machine is not stuck.
 func parkSignature(dump string) (sig string, runnable bool, n int) {
 	var parts []string
 	for _, g := range parseStacks(dump) {
-		if !g.lib && !g.actor {
-			continue
-		}
 		self := false
 		for _, f := range g.frames {
 			if strings.Contains(f, "props.allStacks") {
@@ -180,6 +179,12 @@ func parkSignature(dump string) (sig string, runnable bool, n int) {
 			}
 		}
 		if self {
+			continue
+		}
+		if g.state == "runnable" || g.state == "running" {
+			runnable = true
+		}
+		if !g.lib && !g.actor {
 			continue
 		}
 		n++
@@ -222,7 +227,7 @@ func waitDoneOrStuck(done <-chan struct{}, budget time.Duration) (finished, stuc
 		}
 		if sig == lastSig {
 			same++
-			if same >= 3 {
+			if same >= 6 {
 				select {
 				case <-done:
 					return true, false, ""
